@@ -21,7 +21,7 @@ NSrc == IF R.raised THEN 0 ELSE Len(HSources(R.before, Lib))
 Init == tid \in 1..Len(Recs) /\ a = 0
 Next == a + 1 < 2 ^ NSrc /\ a' = a + 1 /\ UNCHANGED tid
 Spec == Init /\ [][Next]_vars
-Fail(c) == PrintT(<<"FAIL", "C10", tid, a, c>>) /\ FALSE
+Fail(c) == PrintT(<<"FAIL", R.pid, tid, a, c>>) /\ FALSE
 Ok == ~R.raised
 Bit(n, k) == (n \div (2 ^ k)) % 2
 SrcV == [i \in 1..NSrc |-> Bit(a, i - 1)]
@@ -60,6 +60,9 @@ NamesKept == (a > 0 \/ ~Good \/
                 /\ Len(InPorts(R.before)) = Len(InPorts(R.after))) \/ Fail("NamesKept")
 \* no unresolved library cell is left behind by resolve
 Resolved == (a > 0 \/ ~Good \/ ~R.resolve \/ \A n \in 0..(NNodes(R.after) - 1) : ~IsInst(Lib, NodeOf(R.after, n))) \/ Fail("Resolved")
+\* requesting branch forks only inserts forks: the cells (non-fork nodes) are the same (C11)
+CellsOf(st) == {<<NodeOf(st, n).name, NodeOf(st, n).kind>> : n \in {m \in 0..(NNodes(st) - 1) : NodeOf(st, m).kind # FORK}}
+OnlyForksAdded == (a > 0 \/ ~Good \/ ~R.onlyforks \/ (CellsOf(R.before) = CellsOf(R.after) /\ NNodes(R.after) >= NNodes(R.before))) \/ Fail("OnlyForksAdded")
 \* The meaning of an UNCONNECTED instance input pin is "reads 0" - except where the simulation primitives themselves
 \* define otherwise: the arity of and/or/xor-type primitives is the highest connected pin, so an open pin that is the
 \* LAST operand (position >= 3) of such a primitive shrinks it instead of reading 0.  For those instances the property
